@@ -107,7 +107,7 @@ func randScenario(r *rand.Rand, thorough bool) rpcScenario {
 	sc.PError = []float64{0, 0, 0.2, 0.5}[r.Intn(4)]
 	sc.ViaClient = r.Intn(2) == 0
 	sc.Delays = map[string]int{}
-	for _, p := range []string{"send.enter", "send.id", "send.written", "call.sent", "recv.frame", "recv.dispatch", "rpc.deliver.before", "rpc.deliver.after", "ack.before", "call.got"} {
+	for _, p := range []string{"send.enter", "send.id", "send.written", "wire.written", "call.sent", "recv.frame", "recv.dispatch", "rpc.deliver.before", "rpc.deliver.after", "ack.before", "call.got"} {
 		if r.Intn(2) == 0 {
 			sc.Delays[p] = []int{50, 300, 2000}[r.Intn(3)]
 		}
@@ -260,7 +260,7 @@ func c09(c *wk.Ctx) {
 			if k == 2 || k == 3 {
 				// scripted interleaving: the server answers at once while every sender is held right after its socket
 				// write — the answer is dispatched before the sender runs again
-				sc = rpcScenario{Callers: 1 + (k-2)*3, PerCaller: 3, Kinds: []string{"object", "vector-int"}, Batch: 1, Delays: map[string]int{"send.written": hookAlways + 4000}}
+				sc = rpcScenario{Callers: 1 + (k-2)*3, PerCaller: 3, Kinds: []string{"object", "vector-int"}, Batch: 1, Delays: map[string]int{[]string{"send.written", "wire.written"}[k-2]: hookAlways + 4000}}
 			}
 			if k == 4 {
 				// ... and the mirror image: the receive loop is held before delivering while senders run ahead
